@@ -242,6 +242,7 @@ func runC05(p *core.Prog, r *core.Report) {
 
 	// ------------------------------------------------------------------ R2
 	r.Guard("C05.R2", "confinement", "single-threaded ownership", func() { checkConfinement(p, r) })
+	r.Guard("C05.R3", "stage-segmenter", "a stage starts at its lowest module", func() { checkStageSegmenter(p, r, "C05.R3") })
 
 	// ------------------------------------------------------------------ R3
 	r.Guard("C05.R3", "NextJob", "dependencies before scheduling", func() {
